@@ -16,6 +16,11 @@ import Duckling.Lemmas.RBasic
   * `C06_while_iteration`       WHILE evaluates its condition in the iteration's fresh child of the *current* state (counter
                                  bound to the number of completed iterations) before every iteration and stops, keeping the
                                  output so far, the first time it is false;
+  * `C06_while_sound` / `C06_while_complete`   **WHILE is its big-step reading** (`WhileRuns`, a relation with no budget and no limit): the
+                                 loop returns `o` iff the iterations written out one after the other — counter = completed iterations,
+                                 condition evaluated in the iteration's fresh child of the CURRENT state, body run while it is true, BREAK /
+                                 RETURN ending it, CONTINUE / NORMAL going on — end in `o` after `n` evaluations of the condition, for any budget of at least `n`
+                                 (so the 20 000 limit never changes the result of a loop that ends by itself);
   * `C06_signal_through_if`     the body of an IF/ELIF/ELSE hands its signal on unchanged, from any nesting depth;
   * `C06_signal_stops_block`    a command that yields a signal ends its block at once; the output produced before it, and its own, is kept in order;
   * `C06_break_continue_emit`   BREAK_LOOP/BREAKLOOP and CONTINUE_LOOP/CONTINUELOOP/CONTINUE emit nothing and only set the signal.
@@ -171,6 +176,83 @@ theorem C06_while_iteration (child : ChildFn) (ctx : Ctx) (pos : Pos) (var : Opt
     congr 1
     funext r
     cases shouldBreak r.sig <;> rfl
+
+/-- WHILE read as a big-step relation — no budget, no iteration limit: `WhileRuns … n count st out o` says that starting with `count`
+    completed iterations in state `st` with output `out`, the loop ends in `o` after evaluating its condition `n` more times -/
+inductive WhileRuns (child : ChildFn) (ctx : Ctx) (pos : Pos) (var : Option Str) (cond : Str) (body : List Node) :
+    Nat → Nat → St → List Str → Out → Prop
+  | stop (count : Nat) (st : St) (out : List Str) (cst : St) (cv : Val)
+      (hb : bindCounter ctx pos st var count (enterSt st) = .ok cst) (hc : evalIn ctx pos cst cond = .ok cv) (hf : cv.truthy = false) :
+      WhileRuns child ctx pos var cond body 1 count st out { st := leave false st cst, out := out, sig := .normal }
+  | exit (count : Nat) (st : St) (out : List Str) (cst : St) (cv : Val) (r : Out) (s : Sig)
+      (hb : bindCounter ctx pos st var count (enterSt st) = .ok cst) (hc : evalIn ctx pos cst cond = .ok cv) (ht : cv.truthy = true)
+      (hr : child body (ctx.child pos ctx.file) cst = .ok r) (hs : shouldBreak r.sig = some s) :
+      WhileRuns child ctx pos var cond body 1 count st out { st := leave false st r.st, out := out ++ r.out, sig := s }
+  | step (n count : Nat) (st : St) (out : List Str) (cst : St) (cv : Val) (r : Out) (o : Out)
+      (hb : bindCounter ctx pos st var count (enterSt st) = .ok cst) (hc : evalIn ctx pos cst cond = .ok cv) (ht : cv.truthy = true)
+      (hr : child body (ctx.child pos ctx.file) cst = .ok r) (hs : shouldBreak r.sig = none)
+      (hrest : WhileRuns child ctx pos var cond body n (count + 1) (leave false st r.st) (out ++ r.out) o) :
+      WhileRuns child ctx pos var cond body (n + 1) count st out o
+
+/-- whatever the loop returns, it returns because the iterations written out one after the other end that way -/
+theorem C06_while_sound (child : ChildFn) (ctx : Ctx) (pos : Pos) (var : Option Str) (cond : Str) (body : List Node)
+    (budget count : Nat) (st : St) (out : List Str) (o : Out)
+    (h : whileLoop (some child) ctx pos var cond body budget count st out = .ok o) :
+    ∃ n, n ≤ budget ∧ WhileRuns child ctx pos var cond body n count st out o := by
+  induction budget generalizing count st out with
+  | zero => simp [whileLoop, raise] at h
+  | succ b ih =>
+    cases hb : bindCounter ctx pos st var count (enterSt st) with
+    | ok cst =>
+      cases hc : evalIn ctx pos cst cond with
+      | ok cv =>
+        rw [C06_while_iteration child ctx pos var cond body b count st out cst cv hb hc] at h
+        cases ht : cv.truthy with
+        | false =>
+          simp only [ht, Bool.false_eq_true, if_false, R.ok.injEq] at h
+          subst h
+          exact ⟨1, by omega, .stop count st out cst cv hb hc ht⟩
+        | true =>
+          simp only [ht, if_true, R.bind_eq_ok] at h
+          obtain ⟨r, hr, h⟩ := h
+          cases hs : shouldBreak r.sig with
+          | some s =>
+            simp only [hs, R.ok.injEq] at h
+            subst h
+            exact ⟨1, by omega, .exit count st out cst cv r s hb hc ht hr hs⟩
+          | none =>
+            simp only [hs] at h
+            obtain ⟨n, hn, hw⟩ := ih _ _ _ h
+            exact ⟨n + 1, by omega, .step n count st out cst cv r o hb hc ht hr hs hw⟩
+      | err e => simp [whileLoop, guardChild, hb, hc, bind] at h
+      | crash e => simp [whileLoop, guardChild, hb, hc, bind] at h
+      | oom w => simp [whileLoop, guardChild, hb, hc, bind] at h
+    | err e => simp [whileLoop, guardChild, hb, bind] at h
+    | crash e => simp [whileLoop, guardChild, hb, bind] at h
+    | oom w => simp [whileLoop, guardChild, hb, bind] at h
+
+/-- and conversely: iterations that end in `o` after `n` evaluations of the condition are what the loop returns, for ANY budget of at least `n` -/
+theorem C06_while_complete (child : ChildFn) (ctx : Ctx) (pos : Pos) (var : Option Str) (cond : Str) (body : List Node)
+    (n count : Nat) (st : St) (out : List Str) (o : Out)
+    (h : WhileRuns child ctx pos var cond body n count st out o) :
+    ∀ budget, n ≤ budget → whileLoop (some child) ctx pos var cond body budget count st out = .ok o := by
+  induction h with
+  | stop count st out cst cv hb hc hf =>
+    intro budget hlt
+    obtain ⟨b, rfl⟩ : ∃ b, budget = b + 1 := ⟨budget - 1, by omega⟩
+    rw [C06_while_iteration child ctx pos var cond body b count st out cst cv hb hc]
+    simp [hf]
+  | exit count st out cst cv r s hb hc ht hr hs =>
+    intro budget hlt
+    obtain ⟨b, rfl⟩ : ∃ b, budget = b + 1 := ⟨budget - 1, by omega⟩
+    rw [C06_while_iteration child ctx pos var cond body b count st out cst cv hb hc]
+    simp [ht, hr, hs]
+  | step n count st out cst cv r o hb hc ht hr hs _ ih =>
+    intro budget hlt
+    obtain ⟨b, rfl⟩ : ∃ b, budget = b + 1 := ⟨budget - 1, by omega⟩
+    rw [C06_while_iteration child ctx pos var cond body b count st out cst cv hb hc]
+    simp only [ht, if_true, hr, R.bind_ok, hs]
+    exact ih b (by omega)
 
 theorem C06_signal_through_if (child : Option ChildFn) (ctx : Ctx) (pos : Pos) (block : List Node) (st : St) (o : Out)
     (h : runBlockAct child ctx pos block (.body st) = .ok o) :
